@@ -105,6 +105,16 @@ func (t *tr) importName(id string) string {
 	return ""
 }
 
+// knownImport: the import path the translator means by a package name ("" if none).
+func (p *pkg) knownImport(n string) string {
+	switch n {
+	case "constants", "utils", "mimc7", "poseidon", "babyjub", "keccak256", "goldenposeidon", "ff", "ffg":
+		return p.module + "/" + n
+	}
+	return map[string]string{"big": "math/big", "fmt": "fmt", "errors": "errors", "hex": "encoding/hex",
+		"sha3": "golang.org/x/crypto/sha3", "driver": "database/sql/driver"}[n]
+}
+
 func (p *pkg) imports() map[string]string {
 	if p.imp != nil {
 		return p.imp
@@ -120,6 +130,16 @@ func (p *pkg) imports() map[string]string {
 			}
 			if old, ok := p.imp[local]; ok && old != base {
 				fatalf("%s: import name %s is used for two packages", p.pos(is), local)
+			}
+			// the translator knows packages by these names: another package under one of them
+			// (.../internal/utils, import big "x/y") would be taken for the known one
+			for _, n := range []string{base, local} {
+				if want := p.knownImport(n); want != "" && want != path {
+					fatalf("%s: import %q under the name %s, which the translator reads as %q", p.pos(is), path, n, want)
+				}
+			}
+			if path == "C" || local == "." {
+				fatalf("%s: cgo and dot imports are not modelled", p.pos(is))
 			}
 			p.imp[local] = base
 		}
